@@ -40,7 +40,9 @@ RULE = ('D-run case = (object configs, thread programs of acquire/critical-secti
         'caller does not hold (a no-op by contract) issued by a third thread while another thread is in the middle of '
         'acquire() on that object, and a holder that DROPS its lock object instead of releasing (del -> __del__ -> '
         'release(force=True); model: CRel o true; only on objects no other thread uses, a fresh object takes its place) '
-        'against a parked or polling contender.  A run in which the model sees a thread release a lock that ANOTHER '
+        'against a parked or polling contender; and programs in which the first os.open / flock of the run raises the '
+        'KeyboardInterrupt flavour (the acquire re-raises), the other object then acquires, and the first object tries again '
+        'while the other one is inside (nothing of an aborted attempt may be reused).  A run in which the model sees a thread release a lock that ANOTHER '
         'thread holds is outside the contract and not judged for occupancy (kernel/table mismatches are always judged).  '
         'L-run case (line-level layer) = the same gated threads, but EVERY source line of aiuti/filelock.py (sys.settrace '
         'in the managed threads) and the construction of a threading.Lock/RLock are gates too, so a thread can be stopped '
@@ -206,6 +208,13 @@ def corpus():
            [0, 0, 0, 0, 0, 0, 1, 1, 1, 1, 1, 0, 0, 0, 0, 0] + [1] * 10 + [0] * 10),
         # a holder that forks a do-nothing child keeps the lock (the child only inherits the descriptor)
         dict(kind='procs', mode='forkhold', nproc=1, rounds=5),
+        # an interrupt (KeyboardInterrupt flavour) out of object 0's first flock: acquire() re-raises after closing the
+        # descriptor; object 1 then acquires (and is given the same descriptor NUMBER); object 0's next, non-blocking
+        # acquire must be refused while object 1 is inside (nothing of the aborted attempt may be reused)
+        mk([[False, -1], [False, -1]], [[A(0, 'blk', 0), A(0, 'nb', 1), R(0)], [A(1, 'blk', 1)]],
+           [0] * 8 + [1] * 8 + [0] * 12, faults=[('lock', 0, 'ki')]),
+        mk([[True, -1], [False, -1]], [[A(0, 'with', 0), A(0, 'timed', 1), R(0)], round_(1, 'blk')],
+           [0] * 8 + [1] * 4 + [0] * 20 + [1] * 6, faults=[('lock', 0, 'ki')]),
         # line-level: thread 0 is stopped a few source lines into its first acquire() of a shared, so far unused
         # object; thread 1 acquires it completely; thread 0 goes on (must be refused / wait, never a second holder)
         mk_line([[False, -1]], [round_(0, 'blk'), round_(0, 'blk')], [['steps', 0, 8], ['call', 1], ['call', 0]]),
@@ -254,14 +263,29 @@ def gen_exhaustive(tier, seed):
                             [round_(1, 'blk'), round_(0, f1), [R(0), A(0, 'nb', 1), R(0)]]), 1 if tier == 'quick' else 2, cap))
             jobs.append((mk([[reent, -1], [False, -1]],
                             [[A(0, 'blk', 3), DEL(0), A(0, 'nb', 1), R(0)], round_(1, f1)]), pb, cap))
+    # an aborted attempt must leave nothing behind that a later attempt could reuse: the FIRST flock of the run raises
+    # the interrupt flavour (acquire re-raises), then the other object acquires, then the first object tries again
+    # while the other one is inside (thread 1 never releases in the first shape, so one preemption suffices)
+    ki_jobs = []
+    for f0 in (['blk', 'with'] if tier == 'quick' else ['blk', 'with', 'timed', 'ctx']):
+        for f2 in (['nb'] if tier == 'quick' else ['nb', 'timed', 'ctxnb']):
+            for reent in (False, True):
+                cfg = [[reent, -1], [not reent, -1]]
+                for kind in ('open', 'lock'):
+                    ki_jobs.append((mk(cfg, [[A(0, f0, 0), A(0, f2, 1), R(0)], [A(1, 'blk', 1)]],
+                                       faults=[(kind, 0, 'ki')]), 1, cap))
+                ki_jobs.append((mk(cfg, [[A(0, f0, 0), A(0, f2, 1), R(0)], round_(1, 'blk')],
+                                   faults=[('lock', 0, 'ki')]), 2, 150 if tier == 'quick' else cap))
     with mp.get_context('fork').Pool(C.NPROC) as pool:
         out = [c for cs in pool.map(_explore, jobs, chunksize=1) for c in cs]
+        ki_out = [c for cs in pool.map(_explore, ki_jobs, chunksize=1) for c in cs]
     if tier == 'quick':
         # keep the quick tier inside its budget: every job's schedules, thinned deterministically
         budget = 2600
         if len(out) > budget:
             step = len(out) / budget
             out = [out[int(i * step)] for i in range(budget)]
+    out += ki_out
     out += gen_line(tier, seed)
     out.append(dict(kind='procs', nproc=4, rounds=20))
     out.append(dict(kind='procs', mode='forkhold', nproc=1, rounds=10))
